@@ -345,6 +345,8 @@ DebtEvents(s) ==
     \cup Migrates(s) \cup Completes(s)
     \cup (LET nx == NextScheduled(Cfg, Work(s)) IN
           IF nx = -1 \/ nx - s.h > 12000 THEN {[E0 EXCEPT !.kind = "Blocks", !.n = 100]} ELSE {[E0 EXCEPT !.kind = "Blocks", !.n = nx - s.h + 1]})
+    \* (variant "debtreward": the same world WITH a block reward - single blocks too, so that a claim can be smaller than the debt)
+    \cup (IF Cfg.blockReward > 0 THEN {[E0 EXCEPT !.kind = "Blocks", !.n = 1]} ELSE {})
     \cup (IF s.h > 100 THEN Terminates(s) ELSE {})
 
 \* fault: one or two stored models; reports and recovery declarations by the fishman (a03), an ordinary node (a01) and the
